@@ -141,11 +141,13 @@ struct Want {
     ioprio: u16,
     select: bool,
     extra_flags: u8,
+    /// Value (not pointer) carried in the addr field.
+    addr: Option<u64>,
 }
 
 fn want(kind: Kind, direct: bool) -> Option<Want> {
     use Kind::*;
-    let w = |opcode, off, len, op_flags| Want { opcode, off, len, op_flags, ioprio: 0, select: false, extra_flags: 0 };
+    let w = |opcode, off, len, op_flags| Want { opcode, off, len, op_flags, ioprio: 0, select: false, extra_flags: 0, addr: None };
     let cur = Some(u64::MAX);
     let cloexec = if direct { 0 } else { libc::O_CLOEXEC as u32 };
     Some(match kind {
@@ -181,7 +183,13 @@ fn want(kind: Kind, direct: bool) -> Option<Want> {
         Truncate => w(OP_FTRUNCATE, Some(77), Some(0), Some(0)),
         Shutdown => w(OP_SHUTDOWN, Some(0), Some(libc::SHUT_RDWR as u32), Some(0)),
         Statx => w(OP_STATX, None, None, Some(libc::AT_EMPTY_PATH as u32)),
-        LocalAddr | SockOpt | SetSockOpt => w(OP_URING_CMD, None, None, None),
+        LocalAddr | SockOpt | SetSockOpt | PeerAddr => w(OP_URING_CMD, None, None, None),
+        Listen => Want { addr: Some(0), ..w(OP_LISTEN, Some(0), Some(16), Some(0)) },
+        SyncData => w(OP_FSYNC, Some(0), Some(0), Some(1)), // IORING_FSYNC_DATASYNC
+        FAdvise => w(OP_FADVISE, Some(4096), Some(8192), Some(libc::POSIX_FADV_WILLNEED as u32)),
+        // fallocate: offset in off, length in addr, mode in len.
+        Allocate => Want { addr: Some(1024), ..w(OP_FALLOCATE, Some(512), Some(0), Some(0)) },
+        SendToVectored => w(OP_SENDMSG, Some(0), Some(1), Some(0)),
         _ => return None,
     })
 }
@@ -239,12 +247,17 @@ fn run_encode(kind: Kind, out: &mut Vec<Violation>) {
             if select != t.select || (t.select && sqe.buf_group() != w.bgid) {
                 bad.push(format!("BUFFER_SELECT={select} buf_group={} (expected {} group {})", sqe.buf_group(), t.select, w.bgid));
             }
+            if let Some(a) = t.addr {
+                if sqe.addr() != a {
+                    bad.push(format!("addr {:#x} != {a:#x}", sqe.addr()));
+                }
+            }
             let other = sqe.flags() & !(SQE_FIXED_FILE | SQE_BUFFER_SELECT);
             if other != t.extra_flags {
                 bad.push(format!("sqe flags {other:#x} != {:#x}", t.extra_flags));
             }
             let want_fidx = if direct && matches!(kind, Kind::Accept | Kind::AcceptNoAddr | Kind::MultishotAccept) { FILE_INDEX_ALLOC } else { 0 };
-            if !matches!(kind, Kind::SendTo | Kind::SendToZc | Kind::LocalAddr | Kind::SockOpt | Kind::SetSockOpt) && sqe.file_index() != want_fidx {
+            if !matches!(kind, Kind::SendTo | Kind::SendToZc | Kind::LocalAddr | Kind::SockOpt | Kind::SetSockOpt | Kind::PeerAddr) && sqe.file_index() != want_fidx {
                 bad.push(format!("file_index {:#x} != {want_fidx:#x}", sqe.file_index()));
             }
             if !bad.is_empty() {
@@ -426,13 +439,48 @@ fn block_on<F: Future>(ring: &mut Ring, fut: F) -> F::Output {
     let mut fut = std::pin::pin!(fut);
     let w = HWaker::new(1);
     let mut cx = Context::from_waker(&w.waker);
-    for _ in 0..300 {
+    for _ in 0..1000 {
         if let Poll::Ready(r) = fut.as_mut().poll(&mut cx) {
             return r;
         }
         ring.poll(Some(Duration::from_millis(10))).expect("Ring::poll on the real kernel");
     }
-    panic!("operation did not complete on the real kernel within 3 s");
+    panic!("operation did not complete on the real kernel within 10 s");
+}
+
+/// Like `block_on` for operations that wait for a slow peer.
+fn block_on_long<F: Future>(ring: &mut Ring, fut: F) -> F::Output {
+    let mut fut = std::pin::pin!(fut);
+    let w = HWaker::new(1);
+    let mut cx = Context::from_waker(&w.waker);
+    for _ in 0..3000 {
+        if let Poll::Ready(r) = fut.as_mut().poll(&mut cx) {
+            return r;
+        }
+        ring.poll(Some(Duration::from_millis(10))).expect("Ring::poll on the real kernel");
+    }
+    panic!("operation did not complete on the real kernel within 30 s");
+}
+
+/// Next item of a stream (`poll_next` is an inherent method of each a10 stream type).
+macro_rules! block_next {
+    ($ring:expr, $it:expr) => {{
+        let w = HWaker::new(1);
+        let mut cx = Context::from_waker(&w.waker);
+        let mut it = $it;
+        let mut res = None;
+        let mut done = false;
+        for _ in 0..1000 {
+            if let Poll::Ready(r) = it.as_mut().poll_next(&mut cx) {
+                res = r;
+                done = true;
+                break;
+            }
+            $ring.poll(Some(Duration::from_millis(10))).expect("Ring::poll on the real kernel");
+        }
+        assert!(done, "stream did not yield on the real kernel within 10 s");
+        res
+    }};
 }
 
 struct RealFx {
@@ -494,7 +542,7 @@ fn run_real(id: u16, direct: bool, out: &mut Vec<Violation>) {
     }
 }
 
-pub const N_REAL: u16 = 16;
+pub const N_REAL: u16 = 20;
 
 /// A socket name through a10; `None` when the kernel has no way to answer for
 /// a direct descriptor (EOPNOTSUPP), which is not judged. Any other failure is.
@@ -1012,6 +1060,400 @@ fn run_real_inner(id: u16, direct: bool) -> Vec<Violation> {
                 out.push(v("real/waitid", format!("child {} exited with 7; a10 reports pid {} status {:?}", child.id(), info.pid(), info.status())));
             }
         }
+        // Every socket option type: set through a10 / read by getsockopt(2) and the reverse, against a twin socket.
+        15 => {
+            let mk = || unsafe { libc::socket(libc::AF_INET, libc::SOCK_STREAM | libc::SOCK_CLOEXEC, 0) };
+            let (raw, twin) = (mk(), mk());
+            assert!(raw >= 0 && twin >= 0);
+            let afd = unsafe { AsyncFd::from_raw_fd(raw, sq.clone()) };
+            let dfd = target(&mut ring, &afd, direct);
+            let t = dfd.as_ref().unwrap_or(&afd);
+            let get_int = |fd: i32, level: i32, name: i32| -> Result<i32, i32> {
+                let mut val = 0i32;
+                let mut len = 4u32;
+                let r = unsafe { libc::getsockopt(fd, level, name, (&raw mut val).cast(), &raw mut len) };
+                if r == 0 { Ok(val) } else { Err(errno()) }
+            };
+            let set_int = |fd: i32, level: i32, name: i32, val: i32| -> Result<(), i32> {
+                let r = unsafe { libc::setsockopt(fd, level, name, (&raw const val).cast(), 4) };
+                if r == 0 { Ok(()) } else { Err(errno()) }
+            };
+            macro_rules! rw {
+                ($ty:ty, $level:expr, $name:expr, [$($val:expr => $rawv:expr),*], $from_raw:expr) => {{
+                    $(
+                    let got = block_on(&mut ring, t.set_socket_option::<$ty>($val));
+                    let want = set_int(twin, $level, $name, $rawv);
+                    let unsupported = direct && got.as_ref().err().and_then(|e| e.raw_os_error()) == Some(libc::EOPNOTSUPP);
+                    if !unsupported {
+                        let (a, b) = (get_int(raw, $level, $name), get_int(twin, $level, $name));
+                        if got.is_ok() != want.is_ok() || a != b {
+                            out.push(v(&format!("real/set_socket_option/{}/{kind}", stringify!($ty)), format!("set {:?}: a10 {got:?} then getsockopt {a:?}; setsockopt({}) {want:?} then getsockopt {b:?}", $val, $rawv)));
+                        }
+                        match block_on(&mut ring, t.socket_option::<$ty>()) {
+                            Ok(g) => {
+                                let expect = b.map($from_raw);
+                                if expect.as_ref().map(|e| format!("{e:?}")) != Ok(format!("{g:?}")) {
+                                    out.push(v(&format!("real/socket_option/{}/{kind}", stringify!($ty)), format!("a10 reads {g:?}, getsockopt(2) gives {b:?} = {expect:?}")));
+                                }
+                            }
+                            Err(e) if direct && e.raw_os_error() == Some(libc::EOPNOTSUPP) => {}
+                            Err(e) => {
+                                if b.is_ok() {
+                                    out.push(v(&format!("real/socket_option/{}/{kind}", stringify!($ty)), format!("a10 fails with {e}, getsockopt(2) gives {b:?}")));
+                                }
+                            }
+                        }
+                    }
+                    )*
+                }};
+            }
+            use a10::net::option as o;
+            let as_bool = |r: i32| r >= 1;
+            let as_u32 = |r: i32| r as u32;
+            rw!(o::KeepAlive, libc::SOL_SOCKET, libc::SO_KEEPALIVE, [true => 1, false => 0], as_bool);
+            rw!(o::ReuseAddress, libc::SOL_SOCKET, libc::SO_REUSEADDR, [true => 1, false => 0], as_bool);
+            rw!(o::ReusePort, libc::SOL_SOCKET, libc::SO_REUSEPORT, [true => 1, false => 0], as_bool);
+            rw!(o::RecvBuf, libc::SOL_SOCKET, libc::SO_RCVBUF, [8192u32 => 8192, 70000u32 => 70000], as_u32);
+            rw!(o::SendBuf, libc::SOL_SOCKET, libc::SO_SNDBUF, [8192u32 => 8192, 70000u32 => 70000], as_u32);
+            rw!(o::RecvLowWater, libc::SOL_SOCKET, libc::SO_RCVLOWAT, [1u32 => 1, 100u32 => 100], as_u32);
+            rw!(o::TcpNoDelay, libc::IPPROTO_TCP, libc::TCP_NODELAY, [true => 1, false => 0], as_bool);
+            rw!(o::TcpCork, libc::IPPROTO_TCP, libc::TCP_CORK, [true => 1, false => 0], as_bool);
+            rw!(o::TcpKeepAliveCount, libc::IPPROTO_TCP, libc::TCP_KEEPCNT, [3u32 => 3, 0u32 => 0, 200u32 => 200], as_u32);
+            rw!(o::TcpKeepAliveInterval, libc::IPPROTO_TCP, libc::TCP_KEEPINTVL, [5u32 => 5, 0u32 => 0], as_u32);
+            rw!(o::TcpKeepAliveIdle, libc::IPPROTO_TCP, libc::TCP_KEEPIDLE, [7u32 => 7, 40000u32 => 40000], as_u32);
+            // Linger carries a structure.
+            for val in [None, Some(0u32), Some(9)] {
+                let got = block_on(&mut ring, t.set_socket_option::<o::Linger>(val));
+                if direct && got.as_ref().err().and_then(|e| e.raw_os_error()) == Some(libc::EOPNOTSUPP) {
+                    continue;
+                }
+                let mut l = libc::linger { l_onoff: 0, l_linger: 0 };
+                let mut len = size_of::<libc::linger>() as u32;
+                let r = unsafe { libc::getsockopt(raw, libc::SOL_SOCKET, libc::SO_LINGER, (&raw mut l).cast(), &raw mut len) };
+                let read_back = if l.l_onoff != 0 { Some(l.l_linger as u32) } else { None };
+                if got.is_err() || r != 0 || read_back != val {
+                    out.push(v(&format!("real/set_socket_option/Linger/{kind}"), format!("set {val:?}: a10 {got:?}, getsockopt gives onoff={} linger={}", l.l_onoff, l.l_linger)));
+                }
+                match block_on(&mut ring, t.socket_option::<o::Linger>()) {
+                    Ok(g) if g == val => {}
+                    Err(e) if direct && e.raw_os_error() == Some(libc::EOPNOTSUPP) => {}
+                    other => out.push(v(&format!("real/socket_option/Linger/{kind}"), format!("set {val:?}, a10 reads {other:?}"))),
+                }
+            }
+            // Read-only ones.
+            macro_rules! ro {
+                ($ty:ty, $name:expr, $fmt:expr) => {{
+                    let b = get_int(raw, libc::SOL_SOCKET, $name);
+                    match block_on(&mut ring, t.socket_option::<$ty>()) {
+                        Ok(g) => {
+                            let g = $fmt(g);
+                            if Ok(g) != b {
+                                out.push(v(&format!("real/socket_option/{}/{kind}", stringify!($ty)), format!("a10 reads {g:?}, getsockopt(2) gives {b:?}")));
+                            }
+                        }
+                        Err(e) if direct && e.raw_os_error() == Some(libc::EOPNOTSUPP) => {}
+                        Err(e) => out.push(v(&format!("real/socket_option/{}/{kind}", stringify!($ty)), format!("a10 fails with {e}, getsockopt(2) gives {b:?}"))),
+                    }
+                }};
+            }
+            ro!(o::Type, libc::SO_TYPE, |g: a10::net::Type| if g == a10::net::Type::STREAM { libc::SOCK_STREAM } else { -1 });
+            ro!(o::Domain, libc::SO_DOMAIN, |g: a10::net::Domain| if g == a10::net::Domain::IPV4 { libc::AF_INET } else { -1 });
+            ro!(o::Protocol, libc::SO_PROTOCOL, |g: a10::net::Protocol| if g == a10::net::Protocol::TCP { libc::IPPROTO_TCP } else { -1 });
+            ro!(o::Accept, libc::SO_ACCEPTCONN, |g: bool| g as i32);
+            unsafe { libc::close(twin) };
+            drop(dfd);
+            drop(afd);
+        }
+        // recv flags and the composite operations on real sockets and pipes.
+        16 => {
+            use std::io::{Read, Write};
+            let pair = || {
+                let l = std::net::TcpListener::bind("127.0.0.1:0").unwrap();
+                let c = std::net::TcpStream::connect(l.local_addr().unwrap()).unwrap();
+                let (s, _) = l.accept().unwrap();
+                (c, s)
+            };
+            let (ours, mut peer) = pair();
+            use std::os::fd::IntoRawFd;
+            let raw = ours.into_raw_fd();
+            let afd = unsafe { AsyncFd::from_raw_fd(raw, sq.clone()) };
+            let dfd = target(&mut ring, &afd, direct);
+            let t = dfd.as_ref().unwrap_or(&afd);
+            // PEEK leaves the data in place.
+            peer.write_all(b"peekaboo").unwrap();
+            let a = block_on(&mut ring, t.recv(Vec::with_capacity(4)).flags(a10::net::RecvFlag::PEEK)).expect("recv peek");
+            let b = block_on(&mut ring, t.recv(Vec::with_capacity(16))).expect("recv");
+            if a != b"peek" || b != b"peekaboo" {
+                out.push(v(&format!("real/recv-peek/{kind}"), format!("peeked {a:?}, then received {b:?}")));
+            }
+            // recv_n across two segments.
+            let h = std::thread::spawn(move || {
+                peer.write_all(b"0123").unwrap();
+                std::thread::sleep(Duration::from_millis(30));
+                peer.write_all(b"456789").unwrap();
+                peer
+            });
+            let got = block_on(&mut ring, t.recv_n(Vec::with_capacity(16), 10)).expect("recv_n");
+            let mut peer = h.join().unwrap();
+            if got != b"0123456789" {
+                out.push(v(&format!("real/recv_n/{kind}"), format!("two segments 0123 + 456789, recv_n(10) returns {got:?}")));
+            }
+            // recv_n_vectored, then end of stream before n.
+            let h = std::thread::spawn(move || {
+                peer.write_all(b"ab").unwrap();
+                std::thread::sleep(Duration::from_millis(20));
+                peer.write_all(b"cdefg").unwrap();
+                peer
+            });
+            let got = block_on(&mut ring, t.recv_n_vectored([Vec::with_capacity(3), Vec::with_capacity(8)], 7)).expect("recv_n_vectored");
+            let mut peer = h.join().unwrap();
+            if got[0] != b"abc" || got[1] != b"defg" {
+                out.push(v(&format!("real/recv_n_vectored/{kind}"), format!("ab + cdefg into [3, 8]: {got:?}")));
+            }
+            // send_all / send_all_vectored of more than the socket buffer holds.
+            let big: Vec<u8> = (0..600_000usize).map(|i| (i % 251) as u8).collect();
+            let expect = big.clone();
+            let h = std::thread::spawn(move || {
+                let mut all = vec![0u8; 600_000 + 5];
+                peer.read_exact(&mut all).unwrap();
+                (peer, all)
+            });
+            let r1 = block_on_long(&mut ring, t.send_all(big));
+            let r2 = block_on_long(&mut ring, t.send_all_vectored([b"ab".to_vec(), b"cde".to_vec()]));
+            let (peer, all) = h.join().unwrap();
+            if r1.is_err() || r2.is_err() || all[..600_000] != expect[..] || &all[600_000..] != b"abcde" {
+                out.push(v(&format!("real/send_all/{kind}"), format!("send_all {r1:?}, send_all_vectored {r2:?}; peer data equal: {}", all[..600_000] == expect[..])));
+            }
+            // Peer closes: recv_n must fail with UnexpectedEof after the partial data.
+            let mut peer = peer;
+            peer.write_all(b"xy").unwrap();
+            drop(peer);
+            let got = block_on(&mut ring, t.recv_n(Vec::with_capacity(8), 5));
+            if got.as_ref().err().map(|e| e.kind()) != Some(std::io::ErrorKind::UnexpectedEof) {
+                out.push(v(&format!("real/recv_n/{kind}"), format!("peer sent 2 bytes and closed, recv_n(5) returns {got:?}")));
+            }
+            drop(dfd);
+            drop(afd);
+            // Pipes: write_all into a small pipe that is drained slowly, read_n from pieces.
+            let mut p = [0i32; 2];
+            assert_eq!(unsafe { libc::pipe2(p.as_mut_ptr(), libc::O_CLOEXEC) }, 0);
+            unsafe { libc::fcntl(p[1], libc::F_SETPIPE_SZ, 4096) };
+            let wfd = unsafe { AsyncFd::from_raw_fd(p[1], sq.clone()) };
+            let wd = target(&mut ring, &wfd, direct);
+            let wt = wd.as_ref().unwrap_or(&wfd);
+            let data: Vec<u8> = (0..40_000usize).map(|i| (i * 7 % 253) as u8).collect();
+            let expect = data.clone();
+            let rd = p[0];
+            let h = std::thread::spawn(move || {
+                let mut all = Vec::new();
+                let mut buf = [0u8; 1000];
+                while all.len() < 40_000 + 6 {
+                    let n = unsafe { libc::read(rd, buf.as_mut_ptr().cast(), buf.len()) };
+                    if n <= 0 {
+                        break;
+                    }
+                    all.extend_from_slice(&buf[..n as usize]);
+                }
+                all
+            });
+            let r1 = block_on_long(&mut ring, wt.write_all(data));
+            let r2 = block_on_long(&mut ring, wt.write_all_vectored([b"12".to_vec(), b"3456".to_vec()]));
+            let all = h.join().unwrap();
+            if r1.is_err() || r2.is_err() || all.len() != 40_006 || all[..40_000] != expect[..] || &all[40_000..] != b"123456" {
+                out.push(v(&format!("real/write_all/{kind}"), format!("write_all {r1:?}, write_all_vectored {r2:?}; reader got {} bytes, equal: {}", all.len(), all.len() >= 40_000 && all[..40_000] == expect[..])));
+            }
+            drop(wd);
+            drop(wfd);
+            ring.poll(Some(Duration::from_millis(5))).unwrap();
+            let rfd = unsafe { AsyncFd::from_raw_fd(rd, sq.clone()) };
+            let rdd = target(&mut ring, &rfd, direct);
+            let rt = rdd.as_ref().unwrap_or(&rfd);
+            let mut p2 = [0i32; 2];
+            assert_eq!(unsafe { libc::pipe2(p2.as_mut_ptr(), libc::O_CLOEXEC) }, 0);
+            let r2fd = unsafe { AsyncFd::from_raw_fd(p2[0], sq.clone()) };
+            let r2d = target(&mut ring, &r2fd, direct);
+            let r2t = r2d.as_ref().unwrap_or(&r2fd);
+            let w2 = p2[1];
+            let h = std::thread::spawn(move || {
+                for piece in [&b"abc"[..], b"de", b"fghij"] {
+                    unsafe { libc::write(w2, piece.as_ptr().cast(), piece.len()) };
+                    std::thread::sleep(Duration::from_millis(15));
+                }
+                unsafe { libc::close(w2) };
+            });
+            let a = block_on(&mut ring, r2t.read_n(Vec::with_capacity(6), 6));
+            let b = block_on(&mut ring, r2t.read_n_vectored([Vec::with_capacity(2), Vec::with_capacity(8)], 4));
+            h.join().unwrap();
+            let c = block_on(&mut ring, r2t.read_n(Vec::with_capacity(16), 3));
+            let a_ok = a.as_ref().is_ok_and(|a| a == b"abcdef");
+            let b_ok = b.as_ref().is_ok_and(|b| b[0] == b"gh" && b[1] == b"ij");
+            if !a_ok || !b_ok || c.as_ref().err().map(|e| e.kind()) != Some(std::io::ErrorKind::UnexpectedEof) {
+                out.push(v(&format!("real/read_n/{kind}"), format!("pieces abc,de,fghij then close: read_n(6) {a:?}, read_n_vectored(4) {b:?}, read_n(3) at the end {c:?}")));
+            }
+            let _ = rt;
+            drop(r2d);
+            drop(r2fd);
+            drop(rdd);
+            drop(rfd);
+        }
+        // Multishot operations on the real kernel.
+        17 => {
+            let k = if direct { FdKind::Direct } else { FdKind::File };
+            // accept
+            let listener = block_on(&mut ring, a10::net::socket(sq.clone(), a10::net::Domain::IPV4, a10::net::Type::STREAM, None).kind(k)).expect("socket");
+            let addr: std::net::SocketAddr = format!("127.0.0.1:{}", free_port(false)).parse().unwrap();
+            block_on(&mut ring, listener.bind(addr)).expect("bind");
+            block_on(&mut ring, listener.listen(8)).expect("listen");
+            let mut clients = Vec::new();
+            {
+                let mut acc = std::pin::pin!(listener.multishot_accept());
+                for i in 0..3u8 {
+                    use std::io::Write;
+                    let mut c = std::net::TcpStream::connect(addr).expect("connect");
+                    c.write_all(&[b'A' + i]).unwrap();
+                    clients.push(c);
+                    match block_next!(ring, acc.as_mut()) {
+                        Some(Ok(conn)) => {
+                            let got = block_on(&mut ring, conn.recv(Vec::with_capacity(4)));
+                            if got.as_ref().ok() != Some(&vec![b'A' + i]) {
+                                out.push(v(&format!("real/multishot_accept/{kind}"), format!("connection #{i} delivers {got:?}")));
+                            }
+                        }
+                        other => out.push(v(&format!("real/multishot_accept/{kind}"), format!("connection #{i}: {:?}", other.map(|r| r.map(|_| "fd"))))),
+                    }
+                }
+            }
+            drop(listener);
+            // recv on a datagram socket through a pool.
+            let s = block_on(&mut ring, a10::net::socket(sq.clone(), a10::net::Domain::IPV4, a10::net::Type::DGRAM, None).kind(k)).expect("socket");
+            let addr: std::net::SocketAddr = std::net::UdpSocket::bind("127.0.0.1:0").unwrap().local_addr().unwrap();
+            block_on(&mut ring, s.bind(addr)).expect("bind");
+            let pool = a10::io::ReadBufPool::new(sq.clone(), 4, 64).expect("pool");
+            let peer = std::net::UdpSocket::bind("127.0.0.1:0").unwrap();
+            {
+                let mut rx = std::pin::pin!(s.multishot_recv(pool.clone()));
+                let mut kept = Vec::new();
+                for i in 0..6u8 {
+                    let msg = vec![b'a' + i; 1 + i as usize];
+                    peer.send_to(&msg, addr).unwrap();
+                    match block_next!(ring, rx.as_mut()) {
+                        Some(Ok(b)) if b[..] == msg[..] => {
+                            // Keep two alive so that the pool runs low, release the others.
+                            if i < 2 {
+                                kept.push((b, msg));
+                            }
+                        }
+                        Some(Ok(b)) => out.push(v(&format!("real/multishot_recv/{kind}"), format!("datagram #{i} {msg:?} arrives as {:?}", &b[..]))),
+                        Some(Err(e)) => out.push(v(&format!("real/multishot_recv/{kind}"), format!("datagram #{i}: {e}"))),
+                        None => {
+                            out.push(v(&format!("real/multishot_recv/{kind}"), format!("stream ended at datagram #{i}")));
+                            break;
+                        }
+                    }
+                }
+                for (b, msg) in &kept {
+                    if b[..] != msg[..] {
+                        out.push(v(&format!("real/multishot_recv/{kind}"), format!("a buffer held across later receives changed: {:?} != {msg:?}", &b[..])));
+                    }
+                }
+            }
+            drop(s);
+            // read on a pipe, to the end of the stream.
+            let mut p = [0i32; 2];
+            assert_eq!(unsafe { libc::pipe2(p.as_mut_ptr(), libc::O_CLOEXEC) }, 0);
+            let rfd = unsafe { AsyncFd::from_raw_fd(p[0], sq.clone()) };
+            let rd = target(&mut ring, &rfd, direct);
+            let rt = rd.as_ref().unwrap_or(&rfd);
+            {
+                let mut rx = std::pin::pin!(rt.multishot_read(pool.clone()));
+                let mut all = Vec::new();
+                for piece in [&b"one"[..], b"two2", b"three"] {
+                    unsafe { libc::write(p[1], piece.as_ptr().cast(), piece.len()) };
+                    match block_next!(ring, rx.as_mut()) {
+                        Some(Ok(b)) => all.extend_from_slice(&b),
+                        other => {
+                            out.push(v(&format!("real/multishot_read/{kind}"), format!("after writing {piece:?}: {:?}", other.map(|r| r.map(|b| b.len())))));
+                            break;
+                        }
+                    }
+                }
+                unsafe { libc::close(p[1]) };
+                // read(2) returns 0 at the end of the stream: an empty buffer, then the stream ends.
+                let mut end = block_next!(ring, rx.as_mut());
+                if matches!(&end, Some(Ok(b)) if b.is_empty()) {
+                    end = block_next!(ring, rx.as_mut());
+                }
+                if all != b"onetwo2three" || end.is_some() {
+                    out.push(v(&format!("real/multishot_read/{kind}"), format!("read {all:?}; after the writer closed: {:?}", end.map(|r| r.map(|b| b.len())))));
+                }
+            }
+            drop(rd);
+            drop(rfd);
+            drop(pool);
+        }
+        // fadvise / madvise / allocate modes.
+        18 => {
+            let pa = fx.file("fa", &content(10_000));
+            let pb = fx.file("fb", &content(10_000));
+            let raw = open_raw(&pa, libc::O_RDWR);
+            let lfd = open_raw(&pb, libc::O_RDWR);
+            let afd = unsafe { AsyncFd::from_raw_fd(raw, sq.clone()) };
+            let dfd = target(&mut ring, &afd, direct);
+            let t = dfd.as_ref().unwrap_or(&afd);
+            use a10::fs::AdviseFlag as F;
+            for (flag, raw_flag) in [(F::NORMAL, libc::POSIX_FADV_NORMAL), (F::SEQUENTIAL, libc::POSIX_FADV_SEQUENTIAL), (F::RANDOM, libc::POSIX_FADV_RANDOM), (F::NO_REUSE, libc::POSIX_FADV_NOREUSE), (F::WILL_NEED, libc::POSIX_FADV_WILLNEED), (F::DONT_NEED, libc::POSIX_FADV_DONTNEED)] {
+                for (off, len) in [(0u64, 0u32), (4096, 4096), (1 << 40, 1)] {
+                    let got = block_on(&mut ring, t.advise(off, len, flag));
+                    let want = unsafe { libc::posix_fadvise(lfd, off as i64, len as i64, raw_flag) };
+                    if got.is_ok() != (want == 0) || got.as_ref().err().and_then(|e| e.raw_os_error()).is_some_and(|e| e != want) {
+                        out.push(v(&format!("real/advise/{kind}"), format!("advise({off}, {len}, {raw_flag}): a10 {got:?}, posix_fadvise returns {want}")));
+                    }
+                }
+            }
+            use a10::fs::AllocateMode as M;
+            for (mode, raw_mode, off, len) in [
+                (None, 0, 9_000u64, 5_000u32),
+                (Some(M::KEEP_SIZE), libc::FALLOC_FL_KEEP_SIZE, 20_000, 4_096),
+                (Some(M::PUNCH_HOLE | M::KEEP_SIZE), libc::FALLOC_FL_PUNCH_HOLE | libc::FALLOC_FL_KEEP_SIZE, 100, 5_000),
+                (Some(M::ZERO_RANGE), libc::FALLOC_FL_ZERO_RANGE, 50, 300),
+                (Some(M::PUNCH_HOLE), libc::FALLOC_FL_PUNCH_HOLE, 0, 10),
+            ] {
+                let f = t.allocate(off, len);
+                let got = block_on(&mut ring, async { match mode { Some(m) => f.mode(m).await, None => f.await } });
+                let want = unsafe { libc::fallocate(lfd, raw_mode, off as i64, len as i64) };
+                let werr = if want == 0 { 0 } else { errno() };
+                let same_content = std::fs::read(&pa).unwrap() == std::fs::read(&pb).unwrap();
+                if got.is_ok() != (want == 0) || got.as_ref().err().and_then(|e| e.raw_os_error()).is_some_and(|e| e != werr) || !same_content {
+                    out.push(v(&format!("real/allocate-mode/{kind}"), format!("allocate({off}, {len}) mode {raw_mode:#x}: a10 {got:?}, fallocate {want} (errno {werr}); files equal: {same_content}")));
+                }
+            }
+            unsafe { libc::close(lfd) };
+            drop(dfd);
+            drop(afd);
+            if !direct {
+                // madvise(DONTNEED) on private anonymous memory zero-fills it; a bad address fails the same way.
+                let map = |fill: u8| unsafe {
+                    let p = libc::mmap(std::ptr::null_mut(), 8192, libc::PROT_READ | libc::PROT_WRITE, libc::MAP_PRIVATE | libc::MAP_ANONYMOUS, -1, 0) as *mut u8;
+                    std::ptr::write_bytes(p, fill, 8192);
+                    p
+                };
+                let (a, b) = (map(7), map(7));
+                use a10::mem::AdviseFlag as MF;
+                for (flag, raw_flag, off, len) in [(MF::NORMAL, libc::MADV_NORMAL, 0usize, 8192u32), (MF::DONT_NEED, libc::MADV_DONTNEED, 4096, 4096), (MF::WILL_NEED, libc::MADV_WILLNEED, 0, 4096), (MF::DONT_NEED, libc::MADV_DONTNEED, 1, 4096)] {
+                    let got = block_on(&mut ring, a10::mem::advise(sq.clone(), unsafe { a.add(off) }.cast(), len, flag));
+                    let want = unsafe { libc::madvise(b.add(off).cast(), len as usize, raw_flag) };
+                    let werr = if want == 0 { 0 } else { errno() };
+                    let same = unsafe { std::slice::from_raw_parts(a, 8192) == std::slice::from_raw_parts(b, 8192) };
+                    if got.is_ok() != (want == 0) || got.as_ref().err().and_then(|e| e.raw_os_error()).is_some_and(|e| e != werr) || !same {
+                        out.push(v("real/madvise", format!("advise(+{off}, {len}, {raw_flag}): a10 {got:?}, madvise {want} (errno {werr}); memory equal: {same}")));
+                    }
+                }
+                unsafe {
+                    libc::munmap(a.cast(), 8192);
+                    libc::munmap(b.cast(), 8192);
+                }
+            }
+        }
         // Descriptor conversions and close.
         _ => {
             let pa = fx.file("ca", b"0123456789");
@@ -1067,7 +1509,7 @@ pub fn cases(_quick: bool) -> Vec<Case> {
         ReadVec, ReadVecPrefilled, ReadLimited, WriteVec, WriteStatic, WriteString, WriteBoxed, WriteArc, ReadVectored2, WriteVectored2,
         WriteVectoredTuple, Recv, RecvVectored, RecvFrom, RecvFromVectored, Send, SendZc, SendTo, SendToZc, SendVectored, SendVectoredZc,
         ReadPool, RecvPool, MultishotRead, MultishotRecv, Accept, AcceptNoAddr, MultishotAccept, Connect, Bind, LocalAddr, SockOpt, SetSockOpt,
-        Statx, Fsync, Truncate, Shutdown,
+        Statx, Fsync, Truncate, Shutdown, Listen, PeerAddr, SyncData, FAdvise, Allocate, SendToVectored,
     ] {
         v.push(Case::Encode { kind });
     }
